@@ -33,19 +33,19 @@ def slices(tier):
     out = [
         # scalar variable of a terminal / of an expression; f built on it
         Slice("scalar", [W, F], S, 4, lits=[LIT["two"]], jets=J1, levels=[SV, S, DF, FIN], **kw),
-        Slice("scalar-expr", [W, F], S, 5, lits=[LIT["two"]], jets=J1, levels=[{"mul", "add", "div"}, SV, {"mul", "pow", "div", "add", "sqrt"}, DF, FIN], **kw),
-        Slice("scalar-2", [W, F], S, 5, lits=[LIT["two"]], jets=J1, levels=[SV, {"mul", "pow", "div"}, {"mul", "add", "div"}, DF, FIN], **kw),
+        Slice("scalar-expr", [W, F], S, 5, jets=J1, levels=[{"mul", "add"}, SV, {"mul", "pow", "div", "sqrt"}, DF, FIN], **kw),
+        Slice("scalar-2", [W, F], S, 5, jets=J1, levels=[SV, {"mul", "pow"}, {"mul", "add", "div"}, DF, FIN], **kw),
         # repeated diff
         Slice("scalar-dd", [W, F], S, 5, jets=J1, levels=[SV, {"mul", "pow", "div"}, DF, DF, FIN], **kw),
         # nested variables: a plain variable between v and f
-        Slice("nested", [W, F], S | {"variable"}, 6, jets=J1, levels=[SV, {"mul", "pow"}, {"variable"}, {"mul", "add", "div"}, DF, FIN], **kw),
+        Slice("nested", [W, F], S | {"variable"}, 6, jets=J1, levels=[SV, {"mul"}, {"variable"}, {"mul", "add"}, DF, FIN], **kw),
         # vector variable
         Slice("vector", [U, F], T, 4, idx=(10,), jets=J2, levels=[SV, {"index", "dot", "inner", "outer", "mul"}, DF, FIN], mikinds=("name", "fixed"), **kw),
         Slice("vector-2", [U, F], T, 5, idx=(10,), jets=J2, levels=[SV, {"index", "dot", "inner"}, {"mul", "add", "pow", "div"}, DF, FIN], mikinds=("fixed",), **kw),
         # tensor variable
         Slice("tensor", [A, F], T, 4, idx=(10,), jets=J4, levels=[SV, {"tr", "transpose", "inner", "index", "dot", "mul", "det"}, DF, FIN], mikinds=("fixed",), **kw),
         # diff with respect to a coefficient
-        Slice("coef", [W, F], S, 4, lits=[LIT["two"]], jets=dict(mode="variable", ndir=1, seed_term="w"), levels=[S, S, DF, FIN], **kw),
+        Slice("coef", [W, F], S, 4, lits=[LIT["two"]], jets=dict(mode="variable", ndir=1, seed_term="w"), levels=[{"mul", "pow", "div", "add", "abs"}, {"mul", "add", "div"}, DF, FIN], **kw),
         Slice("coef-vec", [U, F], T, 4, idx=(10,), jets=dict(mode="variable", ndir=2, seed_term="u"), levels=[{"index", "dot", "inner", "mul"}, {"mul", "add", "pow"}, DF, FIN], mikinds=("fixed",), **kw),
     ]
     return out
